@@ -90,13 +90,30 @@ def inventory(repo, res):
         "__m.update(__h)",
         "self._unit_system_id = str(__m.hexdigest())",
     ])
+    digest_node, table_expr = pid.node, "self.lut"
+    if b is None:
+        # the digest may live in a module-level helper that is handed the table: self._unit_system_id = helper(self.lut)
+        for n in ast.walk(pid.node):
+            if isinstance(n, ast.Assign) and norm(n.targets[0]) == "self._unit_system_id" and isinstance(n.value, ast.Call) and isinstance(n.value.func, ast.Name) and [norm(a_) for a_ in n.value.args] == ["self.lut"] and not n.value.keywords:
+                hf = reg.funcs.get(n.value.func.id)
+                if hf and len(hf) == 1 and len(hf[0].params) == 1:
+                    b = find_all(hf[0].node, [
+                        "__h.extend(__k.encode('utf8'))",
+                        "__h.extend(repr(__v).encode('utf8'))",
+                        "__m = md5()",
+                        "__m.update(__h)",
+                        "return str(__m.hexdigest())",
+                    ])
+                    if b is not None:
+                        digest_node, table_expr = hf[0].node, hf[0].params[0]
+                        res.fn(hf[0])
     ok = b is not None
     if ok:
-        loops = [n for n in ast.walk(pid.node) if isinstance(n, ast.For) and cnorm(n.iter) == "sorted(self.lut.items())" and isinstance(n.target, ast.Tuple) and [norm(e) for e in n.target.elts] == [b["__k"], b["__v"]]]
+        loops = [n for n in ast.walk(digest_node) if isinstance(n, ast.For) and cnorm(n.iter) == f"sorted({table_expr}.items())" and isinstance(n.target, ast.Tuple) and [norm(e) for e in n.target.elts] == [b["__k"], b["__v"]]]
         ok = len(loops) == 1
         # recomputed exactly when the memo is None, and the memo is what is returned
         sums = summarise(pid)
-        ok &= all(x.kind == "return" and x.value in ("self._unit_system_id",) or x.kind == "return" and x.value.startswith("str(") for x in sums)
+        ok &= all(x.kind == "return" and (x.value in ("self._unit_system_id",) or x.value.startswith("str(") or (digest_node is not pid.node and x.value.endswith("(self.lut)"))) for x in sums)
         ok &= any(x.has("self._unit_system_id is None", True) and any("self._unit_system_id = " in e for e in x.effects) for x in sums)
         ok &= all(not any("self._unit_system_id = " in e for e in x.effects) for x in sums if x.has("self._unit_system_id is None", False))
     res.check(ok, "registry-id", pid.where(), "the registry id is a digest of the sorted table contents (symbol and repr of the row), recomputed whenever the memo is None", rid=r1)
